@@ -5,7 +5,7 @@
    What the model cannot exhibit: what the real Go collector and allocator do (runtime); the harness probes that with
    finalizers, forced GC and GC-percent sweeps. *)
 From Coq Require Import List NArith Bool.
-From GMK Require Import AddrHeap AddrHeapSpec.
+From GMK Require Import AddrHeap AddrHeapSpec AddrTree AddrTreeSpec.
 Import ListNotations.
 
 (* When the state retains its placeholders: in every reachable world, whatever the collector and allocator do,
@@ -37,6 +37,26 @@ Proof.
   eexists. exists 7%N. vm_compute. repeat split; auto.
 Qed.
 Print Assumptions C05_refuted_numbers_only.
+
+(* Lineage TREES: several states derived from one another are alive together (the branches of a disjunction each derive
+   their own child of one parent).  With the code's policy - NewVar copies the parent's table and adds the placeholder,
+   so every state owns what keeps its placeholders alive - in every world reachable by any interleaving of derivations
+   from ANY state, drops, collections and later allocations, every state's listed placeholders are allocated and no
+   later value is classified as a variable by ANY state of the tree. *)
+Theorem C05_tree_stable : forall cap extra ls w, trun false extra (tinit cap) ls = Some w ->
+  (forall s g a, nth_error (tstates w) s = Some g -> In a (glisted g) -> In a (tlive w)) /\
+  (forall s a, In a (tconsts w) -> tcastvar w s a = false).
+Proof. exact tree_stable. Qed.
+Print Assumptions C05_tree_stable.
+
+(* If instead the parent's storage is handed down and appended to in place, the second sibling overwrites the first
+   sibling's slot: the first sibling still lists its variable but no longer retains it; after the caller drops it the
+   collector may free it and a later constant at that address is classified as the first sibling's variable. *)
+Theorem C05_refuted_shared_storage : exists w,
+  trun true 1 (tinit 2) share_sched = Some w /\ In 7%N (tconsts w) /\ tcastvar w 1 7%N = true /\
+  (exists g, nth_error (tstates w) 1 = Some g /\ In 7%N (glisted g) /\ ~ In 7%N (retained w g)).
+Proof. exact refuted_shared_storage. Qed.
+Print Assumptions C05_refuted_shared_storage.
 
 (* the same schedule is not executable when the state retains the placeholder: the collector may not free it *)
 Example C05_nonvacuous :
